@@ -3,7 +3,7 @@
 applies each patch to <repo dir> (a scratch copy of the repository, never /repo), runs every quick check with
 VERIF_REPO=<repo dir>, records exit status and VIOLATION lines, and restores the copy."""
 import json, os, subprocess, sys, time
-repo, outf, patches = sys.argv[1], sys.argv[2], sys.argv[3:]
+repo, outf, patches = sys.argv[1], os.path.abspath(sys.argv[2]), [os.path.abspath(x) for x in sys.argv[3:]]
 assert os.path.realpath(repo) != "/repo"
 root = os.path.dirname(os.path.dirname(os.path.abspath(__file__)))
 env = dict(os.environ, VERIF_REPO=repo)
